@@ -40,6 +40,44 @@ Local Open Scope Z_scope.
 
 
 # ------------------------------------------------------------------------------------------------
+def blend_translation(ctx):
+    """T-blend: regenerate the description of summarize.py's blend functions (build/<ID>/GenBlend.v), compute the side
+    condition blend_spec_ok for it and instantiate the generic theorems (coq/GenProps/C16_gen.v).
+    Returns None, or a dict describing why the tie failed (the caller reports it after its searches)."""
+    import difflib
+    import shutil
+
+    from harness.common import REPO
+    from translate import t_blend
+
+    ctx.audit_tree(["Model/BlendDesc.v", "Proofs/BlendDescP.v", "GenProps/C16_gen.v"])
+    name = "T-blend translation of bermuda/utils/summarize.py (blend, blend_cells, blend_samples, _linear_blend, _mixture_blend)"
+    try:
+        gen = t_blend.translate(REPO)
+        ctx.obligation(name, True)
+    except Exception as ex:  # noqa: BLE001  -- fail closed: any unrecognised shape is a failed obligation
+        ctx.obligation(name, False, repr(ex))
+        ctx.log(f"T-blend failed closed: {ex!r}")
+        return {"what": f"the translator does not recognise the source: {ex!r}"[:400], "mode": "t-blend", "case": None}
+    (ctx.build / "GenBlend.v").write_text(gen)
+    rc, out = ctx.coqc(ctx.build / "GenBlend.v", timeout=120)
+    ctx.obligation("GenBlend.v compiles", rc == 0, out)
+    if rc != 0:
+        return {"what": "the generated description does not compile", "mode": "t-blend", "coqc": out[-600:], "case": None}
+    shutil.copy(COQ / "GenProps" / "C16_gen.v", ctx.build / "C16_gen.v")
+    ok, out = ctx.prove(ctx.build / "C16_gen.v", timeout=300)
+    if ok:
+        return None
+    exp = COQ / "GenExpected" / "GenBlend.v"
+    diff = []
+    if exp.exists():
+        diff = [ln for ln in difflib.unified_diff(exp.read_text().splitlines(), gen.splitlines(), "expected", "generated",
+                                                  lineterm="", n=0)][:40]
+    ctx.log("description of the blend source differs from the one the theorems need:\n" + "\n".join(diff))
+    return {"what": "blend_spec_ok is false for the description extracted from summarize.py (or an instantiation fails)",
+            "mode": "t-blend", "description_diff": diff, "coqc": out[-600:], "case": None}
+
+
 def prove_static_local(ctx, rel, timeout=900):
     """Re-check a static property file; the .vo goes to build/<pid>/ (same base name, as coqc requires)."""
     src = COQ / rel
@@ -945,6 +983,7 @@ def run(ctx):
     ]
     ctx.audit_tree(["Model/Blend.v", "Proofs/BlendP.v", "Proofs/BlendQ.v", "Proofs/BlendTop.v", "Props/C16.v"])
     prove_static_local(ctx, "Props/C16.v")
+    tie_failure = blend_translation(ctx)
 
     n_cases = 420 if ctx.quick else 4000
     cg = CaseGen(ctx.seed * 7919 + 16)
@@ -1043,6 +1082,10 @@ def run(ctx):
             ctx.violation("correspondence", "model and implementation of blend disagree "
                           f"({len(mism)} cases; first: tag={mism[0][0]['tag'] if mism else '-'}, "
                           f"weights={mism[0][0]['wtag'] if mism else '-'})", data, found_input=False)
+    # the description of the source no longer satisfies the side condition of the generic theorems and none of the
+    # searches above produced a concrete failing input
+    if tie_failure and not ctx.violations:
+        ctx.violation("obligation", "T-blend: " + tie_failure["what"], tie_failure, found_input=False)
 
 
 # ------------------------------------------------------------------------------------------------
@@ -1340,6 +1383,13 @@ def refusal_expected(case):
 
 
 def replay(ctx, data):
+    if data.get("mode") == "t-blend":
+        # no concrete input: re-run the translator and the generated obligations on the current source
+        r = blend_translation(ctx)
+        print("T-blend / blend_spec_ok on the current source:", "ok" if r is None else r["what"])
+        for ln in (r or {}).get("description_diff", [])[:20]:
+            print("  ", ln)
+        return 0 if r is None else 1
     if data.get("recheck"):
         # a small case, the large work, the small case again: the two results must agree
         case = case_from_json(data["case"])
